@@ -21,6 +21,10 @@ type WatchdogConfig struct {
 	WarnRatio    float64
 	WarnSegments int64
 	RaftPointers func() map[uint64]manifest.RaftLogPointer
+	// LogSegment reports the manifest log pointer: the newest WAL segment whose memtable has
+	// been flushed into an installed table. When set, segments above it are never removed:
+	// they still back a memtable that is not on disk yet.
+	LogSegment func() uint32
 }
 
 // WatchdogSnapshot captures WAL watchdog state for reporting.
@@ -45,6 +49,7 @@ type Watchdog struct {
 	warnSegments int64
 	autoEnabled  bool
 	raftPointers func() map[uint64]manifest.RaftLogPointer
+	logSegment   func() uint32
 	closer       *utils.Closer
 
 	autoRuns        atomic.Uint64
@@ -83,6 +88,7 @@ func NewWatchdog(cfg WatchdogConfig) *Watchdog {
 		warnSegments: cfg.WarnSegments,
 		autoEnabled:  cfg.MinRemovable > 0 && cfg.MaxBatch > 0,
 		raftPointers: cfg.RaftPointers,
+		logSegment:   cfg.LogSegment,
 		closer:       utils.NewCloser(),
 	}
 	w.warnReason.Store("")
@@ -193,6 +199,21 @@ func (w *Watchdog) observe() {
 	}
 
 	batch := analysis.RemovableSegments
+	if w.logSegment != nil {
+		// Only segments whose memtable is flushed may go: raft pointers say nothing about
+		// the LSM writes a segment still backs.
+		flushed := w.logSegment()
+		kept := batch[:0:0]
+		for _, id := range batch {
+			if id <= flushed {
+				kept = append(kept, id)
+			}
+		}
+		batch = kept
+		if len(batch) < w.minRemovable {
+			return
+		}
+	}
 	if len(batch) > w.maxBatch {
 		batch = batch[:w.maxBatch]
 	}
